@@ -28,6 +28,15 @@ NONEXP_SHAPE = {"ISWAP": (0, 2, None), "SQRTSWAP": (0, 2, None), "SQRTISWAP": (0
                 "GLOBALPHASE": (0, 0, "s"), "PHASEGATE": (0, 1, "s"), "RZX": (0, 2, "s"), "IDLE": (0, 1, None),
                 "mygate": (0, 1, None)}
 
+# gates that have a QASM name only on a tree with fix C10-4 (`"CSIGN": "cz"`, `"CZ": "cz"`)
+LATE_SHAPE = {"CSIGN": (1, 1, None), "CZ": (1, 1, None)}
+# shapes tried for a gate name that is in none of the tables (every name of GATE_CLASS_MAP is exercised)
+SHAPE_CANDIDATES = [(0, 1, None), (0, 1, "s"), (0, 1, "v2"), (0, 1, "v3"), (0, 2, None), (0, 2, "s"), (0, 2, "v2"),
+                    (1, 1, None), (1, 1, "s"), (1, 2, None), (2, 1, None)]
+# how controls / targets may be given: list of ints (the model's `List Nat`), tuple, numpy array, list of numpy
+# integers, a bare int, a bare numpy integer
+QUBIT_KINDS = ["list", "tuple", "ndarray", "nplist", "int", "npint"]
+
 SPECIAL_SCALARS = [0, 0.0, -0.0, 1, -3, 0.5, -0.25, math.pi, -math.pi / 2, 1e-20, -1e-20, 5e-324, -5e-324, 1.5e-07,
                    -2.5e-300, 1e16, 1e20, -1e20, 1.2345e+30, -7.5e+250, 1e-05, 123456789.125]
 # values Python prints with an exponent and WITHOUT a decimal point (`1e-20`): not a `real` of OpenQASM 2.0 unless
@@ -69,19 +78,98 @@ def py_value(a):
     raise ValueError(a)
 
 
+def qubits_value(idx, kind):
+    """the Python object given as `targets` / `controls`: `idx` (list of ints or None) in the container `kind`"""
+    if idx is None or kind in (None, "list"):
+        return idx
+    if kind == "tuple":
+        return tuple(idx)
+    if kind == "ndarray":
+        return np.array(idx, dtype=int)
+    if kind == "nplist":
+        return [np.int64(i) for i in idx]
+    if kind in ("int", "npint"):
+        if len(idx) != 1:
+            raise ValueError("scalar qubit argument needs exactly one index")
+        return int(idx[0]) if kind == "int" else np.int64(idx[0])
+    raise ValueError(kind)
+
+
 def build(spec):
     QubitCircuit, Gate, Measurement, _ = _lib()
     qc = QubitCircuit(spec["N"], num_cbits=spec["c"])
     for op in spec["ops"]:
         if "m" in op:
-            qc.add_measurement("M", targets=op["m"], classical_store=op["s"])
-        elif op.get("raw"):
-            qc.add_gate(Gate(op["g"], targets=op["t"], controls=op["c"], arg_value=py_value(op["a"]),
+            qc.add_measurement("M", targets=qubits_value(op["m"], op.get("tk")), classical_store=op["s"])
+            continue
+        t, c = qubits_value(op["t"], op.get("tk")), qubits_value(op["c"], op.get("ck"))
+        if op.get("raw"):
+            qc.add_gate(Gate(op["g"], targets=t, controls=c, arg_value=py_value(op["a"]),
                              classical_controls=op.get("k")))
         else:
-            qc.add_gate(op["g"], targets=op["t"], controls=op["c"], arg_value=py_value(op["a"]),
+            qc.add_gate(op["g"], targets=t, controls=c, arg_value=py_value(op["a"]),
                         classical_controls=op.get("k"))
     return qc
+
+
+_TREE = {}
+
+
+def tree_tables():
+    """what the checkout under verification exports, read from its source with `ast`: the names with a QASM name or
+    an emitted definition, the names whose export path calls a method that does not exist (`_qasm_defn_resolve`),
+    whether `_qasm_str` accepts any container of qubit indices.  Source not recognised: the repaired values (the
+    oracle is then strict)."""
+    key = paths.REPO
+    if key not in _TREE:
+        try:
+            e = qasm_tables.export_tables()
+            names = {k for k, _ in e["name_map"]} | {k for k, _ in e["defns"]}
+            _TREE[key] = {"names": names, "crash": [n for n in e["resolvable"] if n not in names],
+                          "containers": e["qubit_containers"]}
+        except Exception:
+            _TREE[key] = {"names": set(SHAPE) | set(LATE_SHAPE), "crash": [], "containers": True}
+    return _TREE[key]
+
+
+def shape_of(name):
+    return SHAPE.get(name) or LATE_SHAPE.get(name)
+
+
+def exportable(name):
+    return name in tree_tables()["names"] and shape_of(name) is not None
+
+
+_DISCOVERED = {}
+
+
+def discover_shape(name):
+    """(controls, targets, parameter shape) with which `QubitCircuit.add_gate(name, ...)` builds a gate whose unitary
+    the library can compute — for names that are in none of the tables above; None if there is none"""
+    if name in _DISCOVERED:
+        return _DISCOVERED[name]
+    QubitCircuit, _, _, _ = _lib()
+    found = None
+    for nc, nt, ps in SHAPE_CANDIDATES:
+        a = None if ps is None else 0.3 if ps == "s" else [0.3, 0.4] if ps == "v2" else [0.3, 0.4, 0.5]
+        try:
+            with warnings.catch_warnings():
+                warnings.simplefilter("ignore")
+                qc = QubitCircuit(3)
+                qc.add_gate(name, targets=list(range(nc, nc + nt)), controls=list(range(nc)) or None, arg_value=a)
+                qc.compute_unitary()
+            found = (nc, nt, ps)
+            break
+        except Exception:
+            continue
+    _DISCOVERED[name] = found
+    return found
+
+
+def library_names():
+    """every name of GATE_CLASS_MAP (legacy spellings included) + the names add_gate knows besides"""
+    from qutip_qip.operations import gateclass
+    return sorted(set(gateclass.GATE_CLASS_MAP) | set(SHAPE) | set(LATE_SHAPE) | set(NONEXP_SHAPE) - {"mygate"})
 
 
 def hx(s):
@@ -89,6 +177,8 @@ def hx(s):
 
 
 def enc_idx(l):
+    # container and integer type of the qubit arguments are not part of the model: a tree whose `_qasm_str` joins
+    # `list(q_controls) + list(q_targets)` treats them all alike, and only such a tree is given other containers
     return "N" if l is None else "L" + ".".join(str(int(i)) for i in l)
 
 
@@ -173,6 +263,13 @@ def impl_export(spec, how="str"):
         qc = build(spec)
     except Exception as e:
         return "build:" + type(e).__name__, None
+    import numbers
+    for g in qc.gates:
+        # a constructor may leave a qubit argument that is no sequence of integers behind (ControlledGate wraps a tuple
+        # of controls into a list: `[(1,)]`): such an object is malformed, like a circuit that cannot be constructed
+        for idx in (g.targets, getattr(g, "controls", None)):
+            if idx is not None and not all(isinstance(i, numbers.Integral) for i in idx):
+                return "build:malformed-object", None
     try:
         with warnings.catch_warnings():
             warnings.simplefilter("ignore")
@@ -254,9 +351,52 @@ def random_circuit(rng, with_meas=True, allow_nonexp=0.0, maxN=5, maxlen=10):
             if cands:
                 ops.append(make_gate(rng, rng.choice(cands), N, NONEXP_SHAPE))
                 continue
-        cands = [g for g in EXPORTABLE if sum(SHAPE[g][:2]) <= N]
-        ops.append(make_gate(rng, rng.choice(cands), N, SHAPE))
+        cands = [g for g in EXPORTABLE + sorted(LATE_SHAPE) if exportable(g) and sum(shape_of(g)[:2]) <= N]
+        g = rng.choice(cands)
+        op = make_gate(rng, g, N, {g: shape_of(g)})
+        op.pop("raw", None)
+        ops.append(op)
     return {"N": N, "c": c, "ops": ops}
+
+
+def name_specs(rng):
+    """every gate name the library knows (GATE_CLASS_MAP with its legacy spellings, the names `add_gate` accepts
+    besides), alone and inside a circuit, built through `add_gate(name, …)` (the gate's own class) and as a generic
+    `Gate` object: each must be exported, or refused with an error of the exporter — never crash"""
+    out = []
+    for name in library_names():
+        shape = shape_of(name) or NONEXP_SHAPE.get(name) or discover_shape(name)
+        if shape is None:
+            continue
+        table = {name: shape}
+        for raw in (False, True):
+            op = make_gate(rng, name, 3, table, list(range(shape[0] + shape[1])))
+            op["raw"] = raw
+            out.append({"N": 3, "c": 0, "ops": [op]})
+            out.append({"N": 3, "c": 0, "ops": [make_gate(rng, "X", 3, SHAPE), dict(op), make_gate(rng, "CRX", 3, SHAPE)]})
+    return out
+
+
+def qubit_kind_specs(rng, names=None):
+    """controls and targets given as list / tuple / numpy array / list of numpy integers / bare int / bare numpy
+    integer, in every combination, for every exportable gate (and measurements)"""
+    out = []
+    for g in (names or [n for n in library_names() if exportable(n)]):
+        nc, nt, ps = shape_of(g)
+        for tk in QUBIT_KINDS:
+            if tk in ("int", "npint") and nt != 1:
+                continue
+            for ck in (QUBIT_KINDS if nc else [None]):
+                if ck in ("int", "npint") and nc != 1:
+                    continue
+                for raw in (False, True):
+                    op = make_gate(rng, g, 3, {g: (nc, nt, ps)}, list(range(nc + nt))[::-1])
+                    op.update(tk=tk, ck=ck, raw=raw)
+                    out.append({"N": 3, "c": 0, "ops": [op]})
+    for tk in QUBIT_KINDS:
+        out.append({"N": 2, "c": 1, "ops": [{"g": "SNOT", "t": [1], "c": None, "a": None, "k": None},
+                                             {"m": [1], "s": 0, "tk": tk}]})
+    return out
 
 
 def in_class(spec):
@@ -268,9 +408,9 @@ def in_class(spec):
             if not (len(op["m"]) == 1 and 0 <= op["m"][0] < N and op["s"] is not None and 0 <= op["s"] < spec["c"]):
                 return False
             continue
-        if op["g"] not in SHAPE or op.get("k"):
+        if not exportable(op["g"]) or op.get("k"):
             return False
-        nc, nt, ps = SHAPE[op["g"]]
+        nc, nt, ps = shape_of(op["g"])
         qs = (op["c"] or []) + (op["t"] or [])
         if len(op["c"] or []) != nc or len(op["t"] or []) != nt or len(set(qs)) != len(qs) or \
                 not all(0 <= q < N for q in qs):
@@ -286,7 +426,11 @@ def in_class(spec):
 
 
 def has_nonexportable(spec):
-    return any("g" in op and op["g"] not in SHAPE for op in spec["ops"])
+    return any("g" in op and op["g"] not in tree_tables()["names"] for op in spec["ops"])
+
+
+def exotic_qubits(spec):
+    return any(op.get("tk") not in (None, "list") or op.get("ck") not in (None, "list") for op in spec["ops"])
 
 
 def strict_number_texts(spec):
@@ -335,6 +479,9 @@ def property_fails(spec, lenient_measure=False):
     st, lines = impl_export(spec)
     if st.startswith("build:"):
         return False, "circuit cannot be constructed (%s)" % st
+    if st == "attr" or st.startswith("other:"):
+        # not a refusal: the export path itself is broken (e.g. a method that does not exist)
+        return True, "export crashes instead of refusing (%s)" % st
     if has_nonexportable(spec):
         return (st == "ok"), ("non-exportable gate exported" if st == "ok" else "refused (%s)" % st)
     if st != "ok":
@@ -353,7 +500,9 @@ def property_fails(spec, lenient_measure=False):
     except qasm_std.QasmError as e:
         bad = [l for l in lines if l and not l.startswith("//")]
         return True, "exported text is not valid OpenQASM 2.0 (%s); text=%r" % (e, text[-200:])
-    qc = build(spec)
+    # the circuit's own unitary is computed from the same circuit with its qubit arguments given as plain lists (the
+    # container type is not part of the circuit's meaning; the simulator has its own requirements on it)
+    qc = build({**spec, "ops": [{k: v for k, v in op.items() if k not in ("tk", "ck")} for op in spec["ops"]]})
     N = spec["N"]
     if std.nq != N or (spec["c"] and std.nc != spec["c"]):
         return True, "register sizes differ"
@@ -401,6 +550,9 @@ class C10(PropertyCheck):
         "QipVerif.C10.export_den_G",
         "QipVerif.C10.roundtrip_den_partial",
         "QipVerif.C10.roundtrip_den",
+        "QipVerif.C10.export_csign_counterexample",
+        "QipVerif.C10.export_csign_repaired",
+        "QipVerif.C10.export_cz_meaning",
         "QipVerif.C10.base_names_are_qelib1",
         "QipVerif.C10.export_measure_counterexample",
         "QipVerif.C10.export_exponent_counterexample",
@@ -422,7 +574,11 @@ class C10(PropertyCheck):
                   "standard with the same real value, so the class of export_valid_pynum_partial / export_den_pynum_partial "
                   "has no condition on the numbers' texts; on a tree without _qasm_real the class requires every printed "
                   "parameter to be a numeric token and rx(1e-20) is proved to be a counter-example. Partial on both trees: "
-                  "measurements (exported without ';') are excluded and proved to be a counter-example. The model is tied "
+                  "measurements (exported without ';') are excluded and proved to be a counter-example. The class of the theorems "
+                  "follows the regenerated name table: on a tree that writes CSIGN / CZ as cz (fix C10-4) they are in it, on "
+                  "other trees CSIGN is proved to crash the export (AttributeError). The container and integer type of "
+                  "controls / targets is outside the Lean model (lists of naturals); it is covered by the correspondence on "
+                  "a tree whose _qasm_str normalises them (fix C10-5, flag read from the exact source). The model is tied "
                   "to the code by regenerated tables and a character-exact correspondence.")
     level_note = ("Trusted: Lean kernel; the OpenQASM 2.0 grammar/semantics and qelib1.inc as transcribed in "
                   "Model/QasmSpec.lean (cross-checked against an independent Python front end); Python's str() / format() of "
@@ -558,6 +714,12 @@ class C10(PropertyCheck):
             for q in range(2):
                 for s in range(max(c, 1)):
                     specs.append({"N": 2, "c": c, "ops": [{"m": [q], "s": s if c else None}]})
+        # every gate name of the library: exported or refused, never a crash
+        specs += name_specs(rng)
+        # container / integer type of controls and targets (only a tree whose `_qasm_str` normalises them is given
+        # anything but lists of Python ints: the model's qubit lists stand for exactly those on other trees)
+        if tree_tables()["containers"]:
+            specs += qubit_kind_specs(rng)
         # parameter texts: a string-valued arg_value is printed through the same code (`str`, then `_qasm_real`
         # where the source has it)
         try:
@@ -577,7 +739,9 @@ class C10(PropertyCheck):
                          "printed with a bare exponent: 1e-20, -1e-20, 5e-324, 1e+16, 1e+20) and container "
                          "type (list, tuple, ndarray, bare exponents inside); %d parameter texts (signs, several e, "
                          "empty mantissa, E) as string-valued parameters; every non-exportable gate alone and inside a "
-                         "circuit; measurements" % len(PARAM_TEXTS))
+                         "circuit; measurements; every gate name of GATE_CLASS_MAP / add_gate (own class and generic Gate object); "
+                         "on a tree with fix C10-5: controls / targets as list, tuple, ndarray, list of numpy integers, bare "
+                         "int, bare numpy integer in every combination for every exportable gate" % len(PARAM_TEXTS))
         # random circuits
         n_rand = 15000 if ctx.thorough else 400
         specs = [random_circuit(rng, allow_nonexp=0.04) for _ in range(n_rand)]
@@ -640,9 +804,11 @@ class C10(PropertyCheck):
         """inputs outside the recorded findings' classes (measure without ';' is repaired by the lenient
         mode instead; numbers that Python prints without a decimal point are excluded on a tree without
         `_qasm_real` only — theorem export_exponent_counterexample)"""
+        if any(op.get("g") in tree_tables()["crash"] for op in spec["ops"]):
+            return False        # recorded finding: the export path of this name calls a method that does not exist
         return (not bare_excluded) or strict_number_texts(spec)
 
-    def _search_stream(self, ctx):
+    def _search_stream(self, ctx, full=False):
         rng = ctx.rng
         for g in EXPORTABLE:
             nc, nt, ps = SHAPE[g]
@@ -656,6 +822,14 @@ class C10(PropertyCheck):
                 yield {"N": max(2, nc + nt), "c": 0, "ops": [make_gate(rng, g, 3, SHAPE, qs, a)]}
         for g in NON_EXPORTABLE:
             yield {"N": 3, "c": 0, "ops": [make_gate(rng, g, 3, NONEXP_SHAPE)]}
+        tt = tree_tables()
+        for spec in name_specs(rng):
+            yield spec
+        if tt["containers"]:
+            ks = qubit_kind_specs(rng)
+            rng.shuffle(ks)
+            for spec in ks[: (len(ks) if (ctx.thorough or full) else 60)]:
+                yield spec
         yield {"N": 1, "c": 1, "ops": [{"g": "SNOT", "t": [0], "c": None, "a": None, "k": None}, {"m": [0], "s": 0}]}
         while True:
             yield random_circuit(rng, allow_nonexp=0.05, maxN=4, maxlen=8)
@@ -663,7 +837,7 @@ class C10(PropertyCheck):
     def oracle_search(self, ctx, budget_s):
         t0 = time.time()
         bare = self._bare_exponent_excluded()
-        for spec in self._search_stream(ctx):
+        for spec in self._search_stream(ctx, full=True):
             if time.time() - t0 > budget_s:
                 return
             if not self._sweep_ok(spec, bare):
@@ -677,7 +851,7 @@ class C10(PropertyCheck):
         bare = self._bare_exponent_excluded()
         for spec in self._search_stream(ctx):
             n += 1
-            if n > (3000 if ctx.thorough else 230):
+            if n > (3000 if ctx.thorough else 420):
                 return
             if not self._sweep_ok(spec, bare):
                 continue
